@@ -42,6 +42,8 @@ func main() {
 		cmdDispatch(fs, os.Args[2:])
 	case "seq":
 		cmdSeq(fs, os.Args[2:])
+	case "fuzz":
+		cmdFuzz(fs, os.Args[2:])
 	default:
 		fmt.Fprintf(os.Stderr, "harness: unknown subcommand %q\n", sub)
 		os.Exit(2)
